@@ -24,6 +24,10 @@ def c19Engine (args : List String) : String :=
       -- Anchor `init` creates the account during account validation, before the guard: natively
       -- that creation is visible (on chain the failed transaction rolls it back)
       else if (info i).inits > 0 then "denied init-only" else "denied same"
+  | ["ocall", prog, ix, who] =>
+    match IxId.all.find? (fun i => i.name == prog ++ "::" ++ ix) with
+    | none => "noix"
+    | some i => if ownerCallPasses i (who == "owner") then "passed" else "denied clean"
   | ["count"] => s!"ok {IxId.all.length}"
   | _ => "bad-op"
 
